@@ -187,8 +187,11 @@ def build_props(pid, thorough=False, log=None):
         if line.startswith('Axioms:'):
             inax = True
             continue
+        if inax and re.match(r'^(make(\[\d+\])?:|COQ\w+ |coqc |Closed under|File )', line):
+            inax = False
+            continue
         if inax:
-            m = re.match(r'^([A-Za-z_][\w\.]*)\s*:', line)
+            m = re.match(r'^([A-Za-z_][\w\.\']*)\s*(:|$)', line)
             if m:
                 axioms.add(m.group(1))
             elif line.startswith(' ') or line.startswith('\t') or not line.strip():
